@@ -376,9 +376,9 @@ Proof.
   exists c'. repeat split; auto; try apply I'. congruence.
 Qed.
 
-(* rtc=False on the pinned tree: the same two operations pop from an empty deque (D3) *)
+(* rtc=False (after the repair of D3): the same two operations find nothing queued and do nothing *)
 Lemma run_loop_nonrtc_empty beh rm f c :
-  rm_rtc rm = false -> rm_async rm = false -> queue c = [] -> run_loop beh rm f c = Exn c XIndex.
+  rm_rtc rm = false -> rm_async rm = false -> queue c = [] -> run_loop beh rm f c = Ok c no_res.
 Proof. intros R A Q. unfold run_loop. rewrite R, A, Q. reflexivity. Qed.
 
 (* async engine: the constructor processes nothing; with no stored state it leaves exactly one
